@@ -263,6 +263,10 @@ class Interp:
             # indexing / slicing / newaxis keep the element interval
             return self.ev(n.value)
         if isinstance(n, ast.Attribute):
+            if s in ('np.pi', 'numpy.pi', 'math.pi'):
+                return Iv.point(math.pi)
+            if s in ('np.e', 'math.e'):
+                return Iv.point(math.e)
             if n.attr in ('T', 'real'):
                 return self.ev(n.value)
             return Iv.top()
